@@ -30,7 +30,7 @@ git -C /repo apply /verif/seeded/$ID/patch.diff || exit 3
 RES=""
 for c in "$@"; do
   out=$(VERIF_OUT=/tmp/seedout-$ID /verif/run.sh $c quick 2>&1); rc=$?
-  sigs=$(echo "$out" | grep 'sig=' | head -3 | tr -s ' ' | tr '\n' ';' | cut -c1-300)
+  sigs=$(echo "$out" | grep 'sig=' | grep -v KNOWN-FINDING | head -3 | tr -s ' ' | tr '\n' ';' | cut -c1-300)
   echo "CHECK $c rc=$rc $sigs"
   RES="$RES $c:rc=$rc"
 done
